@@ -52,18 +52,30 @@ func lockOp(i ssa.Instruction) (id string, op int) {
 		return "", 0
 	}
 	n := CalleeName(c)
+	shared := false
 	switch n {
-	case "(*sync.Mutex).Lock", "(*sync.RWMutex).Lock", "(*sync.RWMutex).RLock":
+	case "(*sync.Mutex).Lock", "(*sync.RWMutex).Lock":
 		op = 1
-	case "(*sync.Mutex).Unlock", "(*sync.RWMutex).Unlock", "(*sync.RWMutex).RUnlock":
+	case "(*sync.RWMutex).RLock":
+		op, shared = 1, true
+	case "(*sync.Mutex).Unlock", "(*sync.RWMutex).Unlock":
 		op = -1
+	case "(*sync.RWMutex).RUnlock":
+		op, shared = -1, true
 	default:
 		return "", 0
 	}
 	if len(c.Args) == 0 {
 		return "", 0
 	}
-	return mutexID(c.Args[0]), op
+	id = mutexID(c.Args[0])
+	if shared {
+		// a read lock does not exclude other readers: it is a different
+		// (weaker) lock identity and never satisfies a guard that needs
+		// exclusion (every guarded object here is mutated by its accessors)
+		id += "(R)"
+	}
+	return id, op
 }
 
 // mutexID names the mutex by the struct type and field that holds it, or by
